@@ -529,6 +529,109 @@ def numeric_vs_pywt(rep, pid, tier):
     rep.count("wavelets_compared_numerically", len(names))
 
 
+def reuse_walk(rep, pid, tier, what="forward"):
+    """ONE module instance per (wavelet, mode, J), called along a WALK of sizes - neighbouring odd / even lengths in both
+    directions, jumps up and down, a repeat - every result compared with PyWavelets (forward: wavedec / wavedec2; inverse:
+    waverec / waverec2 of a free pyramid of the forward's shapes).  Whatever a module remembers between calls (an index plan, a
+    buffer, a size-keyed cache validated by too little) is consulted here with a key that collides; the layers that build a
+    fresh module per case never consult it."""
+    import pywt
+    import torch
+    import pytorch_wavelets as pw
+    from .common import seed
+    dwtlib.f64()
+    rng = np.random.default_rng(4500 + seed())
+    names = ["db2", "db4", "bior2.2"] if tier == "quick" else ["haar", "db2", "db4", "sym5", "bior2.2", "bior3.5", "coif2"]
+    walk1 = [15, 16, 17, 16, 15, 14, 31, 30, 31, 32, 9, 8, 33, 16, 16]
+    walk2 = [(9, 12), (10, 12), (10, 13), (9, 13), (9, 12), (16, 7), (15, 8), (16, 8), (10, 12)]
+    n = 0
+    for name in names:
+        wv = pywt.Wavelet(name)
+        L = wv.dec_len
+        G = max(np.abs(wv.dec_lo).sum(), np.abs(wv.dec_hi).sum(), np.abs(wv.rec_lo).sum(), np.abs(wv.rec_hi).sum())
+        for mode in dwtlib.MODES:
+            for J in (1, 2):
+                fw1, iv1 = pw.DWT1DForward(J=J, wave=name, mode=mode), pw.DWT1DInverse(wave=name, mode=mode)
+                fw2, iv2 = pw.DWTForward(J=J, wave=name, mode=mode), pw.DWTInverse(wave=name, mode=mode)
+                hist = []
+                for step, N in enumerate(walk1):
+                    x = rng.standard_normal((2, 2, N))
+                    hist.append(N)
+                    cfg = dict(wavelet=name, mode=mode, J=J, sizes_so_far=list(hist), dim=1)
+                    case = {"api": "DWT1DForward" if what == "forward" else "DWT1DInverse", "check": "reuse_walk", "cfg": cfg}
+                    try:
+                        ref = pywt.wavedec(x, wv, mode=mode, level=J, axis=-1)
+                    except ValueError:
+                        continue
+                    lens = [N]
+                    for _ in range(J):
+                        lens.append(pywt.dwt_coeff_len(lens[-1], L, mode))
+                    short = mode == "reflect" and any(m < L for m in lens[:J])
+                    n += 1
+                    try:
+                        if what == "forward":
+                            yl, yh = fw1(torch.tensor(x))
+                            got = [yl.numpy()] + [y.numpy() for y in yh[::-1]]
+                            want = ref
+                        else:
+                            free = [rng.standard_normal(r.shape) for r in ref]
+                            try:
+                                want = [pywt.waverec(free, wv, mode=mode, axis=-1)]
+                            except ValueError:
+                                continue
+                            got = [iv1((torch.tensor(free[0]), [torch.tensor(f) for f in free[1:][::-1]])).numpy()]
+                    except Exception as e:   # noqa
+                        if short:
+                            continue
+                        rep.violation("%s(%s, %s, J=%d), ONE module called with lengths %s: raised %r at the last one" % (case["api"], name, mode, J, hist, e),
+                                      dict(case, observed=repr(e)))
+                        break
+                    bound = 64 * EPS64 * L * J * (G ** J) * 8.0
+                    err = max(np.abs(a - b).max() if a.shape == b.shape else np.inf for a, b in zip(got, want))
+                    if not err <= bound:
+                        rep.violation("%s(%s, %s, J=%d), ONE module called with lengths %s: the result for the last length differs from "
+                                      "PyWavelets by %.3g (rounding bound %.3g)" % (case["api"], name, mode, J, hist, err, bound), dict(case, err=err))
+                        break
+                hist = []
+                for step, (H, W) in enumerate(walk2):
+                    x = rng.standard_normal((1, 2, H, W))
+                    hist.append((H, W))
+                    cfg = dict(wavelet=name, mode=mode, J=J, sizes_so_far=[list(h) for h in hist], dim=2)
+                    case = {"api": "DWTForward" if what == "forward" else "DWTInverse", "check": "reuse_walk", "cfg": cfg}
+                    try:
+                        ref = pywt.wavedec2(x, wv, mode=mode, level=J, axes=(-2, -1))
+                    except ValueError:
+                        continue
+                    n += 1
+                    try:
+                        if what == "forward":
+                            yl, yh = fw2(torch.tensor(x))
+                            got = [yl.numpy()] + [yh[j].numpy() for j in range(J)]
+                            want = [ref[0]] + [np.stack(ref[J - j], axis=2) for j in range(J)]
+                        else:
+                            free = [rng.standard_normal(ref[0].shape)] + [tuple(rng.standard_normal(b.shape) for b in lvl) for lvl in ref[1:]]
+                            try:
+                                want = [pywt.waverec2(free, wv, mode=mode, axes=(-2, -1))]
+                            except ValueError:
+                                continue
+                            got = [iv2((torch.tensor(free[0]), [torch.tensor(np.stack(free[J - j], axis=2)) for j in range(J)])).numpy()]
+                    except Exception as e:   # noqa
+                        if mode == "reflect":
+                            continue
+                        rep.violation("%s(%s, %s, J=%d), ONE module called with sizes %s: raised %r at the last one" % (case["api"], name, mode, J, hist, e),
+                                      dict(case, observed=repr(e)))
+                        break
+                    bound = 64 * EPS64 * L * L * J * (G ** (2 * J)) * 8.0
+                    err = max(np.abs(a - b).max() if a.shape == b.shape else np.inf for a, b in zip(got, want))
+                    if not err <= bound:
+                        rep.violation("%s(%s, %s, J=%d), ONE module called with sizes %s: the result for the last size differs from "
+                                      "PyWavelets by %.3g (rounding bound %.3g)" % (case["api"], name, mode, J, hist, err, bound), dict(case, err=err))
+                        break
+                rep.nontriv(("reuse_walk", what, name, mode, J))
+    rep.validated(n)
+    rep.count("reuse_walk_comparisons", n)
+
+
 # ------------------------------------------------------------------------------------------
 # synthesis (C10, C02)
 # ------------------------------------------------------------------------------------------
